@@ -1,4 +1,4 @@
-"""C18 -- an interrupted save never leaves an unopenable project (clauses R18.1-R18.3)."""
+"""C18 -- an interrupted save never leaves an unopenable project (clauses R18.1-R18.5)."""
 from __future__ import annotations
 
 import ast
@@ -18,7 +18,8 @@ EXPLANATION = (
     "hierarchy -- or every writer of that file is atomic (temp path + os.replace).  R18.2: every consumer of "
     "read_data tolerates None before using the value.  R18.3: no other file written by the data-file writer is opened "
     "for reading anywhere.  R18.4: the reader returns its list of loaded objects only under a non-emptiness test, so an "
-    "empty/truncated file yields None (what the consumers test for), never [].  Which version survives a crash is not decided."
+    "empty/truncated file yields None (what the consumers test for), never [].  R18.5: each handle opened by a data writer receives exactly one serialisation record per save (no dump in a loop, no second dump), "
+    "so a strict prefix of the file is never a complete shorter value.  Which version survives a crash is not decided."
 )
 ASSUMPTIONS = [
     "a strict prefix of a valid pickle stream makes pickle.load raise EOFError or pickle.UnpicklingError (CPython behaviour)",
@@ -247,6 +248,7 @@ def check(ctx, res) -> None:
                 readers=[f.qualname for f, _ in readers])
     res.floor("R18.3", "data-file write sites", len(writes), 2)
     _r184(ctx, res)
+    _r185(ctx, res, writer_funcs)
 
 
 def _load(t: ast.AST) -> ast.AST:
@@ -307,3 +309,43 @@ def _r184(ctx, res) -> None:
             f"the list of loaded objects is returned only when it is non-empty ({n} return arm(s)); otherwise the reader falls through to None" if not bad else
             f"read_data can return the (possibly empty) list of loaded objects (line {bad[0].lineno}) without a test that it is non-empty: for an empty or "
             "truncated data file it answers [] instead of None, the consumers' `is not None` tests pass, and opening the project raises on the empty value")
+
+
+def _r185(ctx, res, writer_funcs) -> None:
+    """R18.5: one serialisation record per file per save.  The reader treats a truncated record as "no data"; that
+    only covers every crash point if a prefix of the file can never be a complete, shorter sequence of records.  So each
+    handle opened for writing receives exactly one dump on every path (no dump inside a loop, no second dump after it)."""
+    n = 0
+    for w in writer_funcs:
+        if w.unit.modname in IPC_MODULES:
+            continue
+        dumps = [c for c in calls_in(w.node) if isinstance(c.func, ast.Attribute) and c.func.attr == "dump"
+                 and isinstance(c.func.value, ast.Name) and c.func.value.id in ("pickle", "json", "marshal") and len(c.args) >= 2]
+        if not dumps:
+            continue
+        cfg = CFG(w.node)
+        by_handle = {}
+        for c in dumps:
+            by_handle.setdefault(norm(c.args[1]), []).append(c)
+        for k, (h, cs) in enumerate(sorted(by_handle.items()), 1):
+            n += 1
+            bad = None
+            nodes = []
+            for c in cs:
+                nodes += [(c, nd) for nd in cfg.node_containing(c) if nd.kind in ("stmt", "test")]
+            for c, nd in nodes:
+                succs = [b for b, _ in cfg.succ[nd.id]]
+                after = set()
+                for b in succs:
+                    after |= cfg.reachable(b)
+                again = [c2 for c2, nd2 in nodes if nd2.id in after]
+                if again:
+                    bad = (c, "in a loop" if any(nd2.id == nd.id for _, nd2 in nodes if nd2.id in after) else "followed by a second dump")
+                    break
+            short = w.qualname.split(".", 3)[-1]
+            res.add("R18.5", f"{short}|dump#{k}", bad is None, f"{w.unit.rel}:{cs[0].lineno}",
+                    f"handle {ast.unparse(cs[0].args[1])} receives exactly one record per save" if bad is None else
+                    f"{short} writes several records to {ast.unparse(bad[0].args[1])} ({bad[1]}): a crash after a complete record and before the last one "
+                    "leaves a file that loads without error as a shorter value of a different shape, which the consumer (history/object db loading) "
+                    "indexes as if it were complete -- opening the project or asking for its history raises", function=w.qualname)
+    res.floor("R18.5", "serialisation handles in data writers", n, 1)
